@@ -91,7 +91,7 @@ def _in_msg_arm(cx, site, types, depth=2):
     return all(_in_msg_arm(cx, c, types, depth - 1) for c in callers)
 
 
-@obligation("COMMIT.advance", ["C01", "C03", "C04", "C05", "C15"], floor=6, kind="who-may-call + argument source",
+@obligation("COMMIT.advance", ["C01", "C03", "C04", "C05", "C07", "C15"], floor=6, kind="who-may-call + argument source",
             why="every raise of the commit index must be term-matched, prefix-matched, quorum-derived or sender-capped")
 def commit_advance(cx):
     prog = cx.prog
